@@ -19,7 +19,17 @@ error into exactly the multiset of packets sent; per sender the sequence numbers
 returned normally; nothing hangs once the peer keeps reading.
 
   tls      N tasks calling AsyncTLSStreamTransport.send_all / send_all_from_iterable on ONE transport over the adapter, or
-           over a piecewise (non-atomic send_all) wrapper of it; the reference TLSPeer must decrypt exactly the multiset
+           over a piecewise (non-atomic send_all) wrapper of it; the reference TLSPeer must decrypt exactly the multiset.
+           The transport send lock is the stock asyncio.Lock or the repo's FairLock; the peer application may stop reading
+           for 3..40 ticks after the handshake (the lock owner stays suspended mid-flush); senders QUEUED on the transport
+           send lock are cancelled: every later sender must still succeed and the peer must still decrypt everything (the
+           packet of the cancelled call itself may or may not arrive - its records are already in the write BIO)
+
+Cancellation of queued senders (``*-fairlock`` and ``tls`` harnesses, up to 3 per run, never the lock owner): from a polling
+task woken by a timer, and/or from an iteration hook (``cancel before iteration j``), any queue position, biased towards the
+iteration in which the lock owner is about to run - i.e. the iteration in which it releases: the victim's CancelledError is
+then processed after the release but before the notified head waiter has taken the lock (lock free, head woken, a head or
+non-head waiter leaves the queue, the new owner suspends mid-packet on the small link).
   threads-tcp / threads-udp   2-4 real threads under the baton scheduler (vsim.threads; switch rate 1/2..1/6 per scheduling
            point, optional line-level pre-emption inside clients/tcp.py, clients/udp.py, lowlevel/_utils.py) calling
            send_packet on ONE blocking TCPNetworkClient / UDPNetworkClient; UDP: one packet per datagram, none merged
@@ -55,8 +65,12 @@ LEVEL = "exploration"
 RULE = (
     "2-5 sender tasks x 1-4 self-identifying multi-chunk packets (0..300 bytes) on one AsyncTCPNetworkClient or one server-side "
     "client object; link capacity in {7,16,64,256,1MiB}; peer reads bursts of drawn size after drawn pauses; short writes, EAGAIN, "
-    "EINTR on send; staggered sender starts; delivery fragmentation; oracle = independent decoder: wire == multiset of sent packets, "
-    "per-sender order, every call returned normally, no hang"
+    "EINTR on send; staggered sender starts; delivery fragmentation; *-fairlock (repo FairLock behind client/server/endpoint) and tls "
+    "(asyncio.Lock or FairLock as transport send lock, peer pauses reading after the handshake): 0-3 task.cancel() on senders queued "
+    "on the send lock at any queue position, from a timer-woken task or from an iteration hook biased to the iteration in which the "
+    "owner releases (cancellation processed between release and the head waiter's resumption); oracle = independent decoder: wire == "
+    "multiset of packets of the calls that returned, per-sender order, every non-cancelled call returned normally, no hang; tls: the "
+    "peer decrypts everything, a call cancelled while queued may still have its packet delivered whole at most once"
 )
 COMPONENTS_REAL = [
     "AsyncTCPNetworkClient, AsyncTCPNetworkServer/_ConnectedClientAPI, lowlevel AsyncStreamServer/ConnectedStreamClient, AsyncStreamEndpoint",
@@ -241,7 +255,17 @@ class _Workload:
         # FairLock harnesses: up to 3 task.cancel() on a sender that is QUEUED on the send lock (never on the owner): the
         # cancelled call may end with CancelledError, its packet must be wholly absent, nobody else may notice
         self.ncancel = (0, 1, 2, 3)[world.choose("ncancel", 4)] if cancels and not self.baseline else 0
-        self.locks: list[Any] = []  # _TrackingFairLock objects whose waiters may be cancelled
+        # when the cancels are issued: 0 = from a polling task woken by a timer (between two iterations, the lock being owned);
+        # 1 = from an iteration hook (= a callback that runs before the handles already queued for this iteration), biased towards
+        # the iterations in which the lock owner is about to run, i.e. the very iteration in which it releases the lock: the
+        # victim (any queue position, not only the head) then sees its cancellation after the release but before the notified
+        # head has taken the lock; 2 = both share the budget
+        self.cancel_mode = world.choose("cancel.mode", 3) if self.ncancel else 0
+        self.cancels_left = self.ncancel
+        # TLS: the cipher-text of a sender that is queued on the transport send lock is already in the write BIO and is flushed
+        # by the lock owner, so the packet of a call cancelled there may legitimately reach the peer (whole, at most once)
+        self.cancelled_may_be_sent = False
+        self.locks: list[Any] = []  # tracking locks whose waiters may be cancelled
         self.cancel_targets: set[Any] = set()
         if timed and not self.baseline:
             for lst in self.plan:
@@ -384,34 +408,87 @@ class _Workload:
     async def run_senders(self, send_packet: Callable[[Any], Any]) -> None:
         loop = asyncio.get_running_loop()
         tasks = [loop.create_task(self.sender(i, send_packet), name=f"c12-sender{i + 1}") for i in range(self.nsenders)]
-        killer = loop.create_task(self.canceller(tasks), name="c12-canceller") if self.ncancel else None
+        killer = loop.create_task(self.canceller(tasks), name="c12-canceller") if self.ncancel and self.cancel_mode != 1 else None
+        hook = self.iteration_canceller(tasks, loop) if self.ncancel and self.cancel_mode != 0 else None
+        if hook is not None:
+            self.world.iteration_hooks.append(hook)
         try:
             await asyncio.gather(*tasks)
         finally:
+            if hook is not None:
+                self.world.iteration_hooks.remove(hook)
             if killer is not None:
                 killer.cancel()
 
-    async def canceller(self, tasks: list[Any]) -> None:
-        """cancel senders that are queued on a tracked FairLock while somebody else owns it"""
+    def _cancel_candidates(self, tasks: list[Any], owned_only: bool) -> list[tuple[Any, Any, int]]:
+        """(task, lock, queue position) of every sender inside acquire() of a tracked lock, in arrival order"""
+        out = []
+        for lk in self.locks:
+            if owned_only and not lk.locked():
+                continue
+            for pos, t in enumerate(lk.waiting):
+                if t in tasks and t not in self.cancel_targets and not t.done():
+                    out.append((t, lk, pos))
+        return out
+
+    def _cancel(self, victim: Any, lk: Any, pos: int, fault: str) -> None:
         w = self.world
-        left = self.ncancel
+        queued = len(lk.waiting)
+        self.cancel_targets.add(victim)
+        victim.cancel()
+        self.cancels_left -= 1
+        w.fault(fault)
+        w.probe("cancelled-a-queued-sender:%d-queued" % min(queued, 3))
+        if pos > 0:
+            w.probe("cancelled-a-non-head-waiter:%s-behind-it" % ("somebody" if pos < queued - 1 else "nobody"))
+        w.log("cancel", self.name, victim.get_name(), pos)
+
+    async def canceller(self, tasks: list[Any]) -> None:
+        """cancel senders that are queued on a tracked lock while somebody else owns it"""
+        w = self.world
         polls = 0
-        while left and not all(t.done() for t in tasks):
+        while self.cancels_left > 0 and not all(t.done() for t in tasks):
             await asyncio.sleep(TICK * (1 + w.choose("cancel.gap", 3)) / 2)
             polls += 1
             if polls > 20000:
                 raise StepCap("C12 canceller: more than 20000 polls")
-            cands = sorted((t for lk in self.locks if lk.locked() for t in lk.waiting if t in tasks and t not in self.cancel_targets), key=lambda t: t.get_name())
+            if self.cancels_left <= 0:
+                break
+            cands = self._cancel_candidates(tasks, owned_only=True)
             if not cands or not w.chance("cancel.now", 2, 3):
                 continue
-            victim = cands[w.choose("cancel.victim", len(cands))]
-            queued = sum(len(lk.waiting) for lk in self.locks)
-            self.cancel_targets.add(victim)
-            victim.cancel()
-            left -= 1
-            w.fault("cancel_at_time")
-            w.probe("cancelled-a-queued-sender:%d-queued" % min(queued, 3))
-            w.log("cancel", self.name, victim.get_name())
+            self._cancel(*cands[w.choose("cancel.victim", len(cands))], "cancel_at_time")
+
+    def iteration_canceller(self, tasks: list[Any], loop: Any) -> Callable[[], None]:
+        """`cancel before iteration j`: task.cancel() on a queued sender (any queue position) issued before the handles of the
+        iteration run, like a timeout/another thread whose callback precedes them.  When the lock owner has a step pending in
+        this iteration (it is about to finish its packet and release), the victim's CancelledError is delivered right after
+        the release and before the notified head waiter runs: the lock is free, the head has been woken, a non-head waiter
+        leaves the queue."""
+        w = self.world
+
+        def about_to_run(t: Any) -> bool:
+            if t is None or t.done():
+                return False
+            fw = getattr(t, "_fut_waiter", None)
+            return fw is None or fw.done()
+
+        def hook() -> None:
+            if self.cancels_left <= 0:
+                return
+            cands = self._cancel_candidates(tasks, owned_only=False)
+            if not cands:
+                return
+            releasing = any(lk.locked() and about_to_run(lk.owner) for lk in self.locks)
+            if not w.chance("cancel.iter", 1, 2 if releasing else 24):
+                return
+            victim, lk, pos = cands[w.choose("cancel.victim", len(cands))]
+            if releasing:
+                w.probe("cancel-in-the-iteration-the-owner-runs:%d-queued" % min(len(lk.waiting), 3))
+            self._cancel(victim, lk, pos, "cancel_at_iteration")
+            loop._write_to_self()  # the hook runs inside select(): the callback it made ready must not wait for a network event
+
+        return hook
 
 
 def _check_calls(wl: _Workload) -> tuple[list[tuple[int, int, int]], str]:
@@ -429,11 +506,19 @@ def _check_calls(wl: _Workload) -> tuple[list[tuple[int, int, int]], str]:
     return sent, ctx
 
 
+def _optional_packets(wl: _Workload) -> list[tuple[int, int, int]]:
+    """packets which may be on the wire (whole, at most once) or not: TLS calls cancelled while queued on the transport send lock"""
+    if not wl.cancelled_may_be_sent:
+        return []
+    gone = {(c[0], c[1]) for c in wl.calls if c[2] == "cancelled@lock"}
+    return [p for lst in wl.plan for _, p in lst if (p[0], p[1]) in gone]
+
+
 def _check_packets(wl: _Workload, packets: list[tuple[int, int, int]], sent: list[tuple[int, int, int]], ctx: str) -> None:
     name = wl.name
-    if Counter(packets) != Counter(sent):
-        missing = sorted((Counter(sent) - Counter(packets)).elements())
-        extra = sorted((Counter(packets) - Counter(sent)).elements())
+    missing = sorted((Counter(sent) - Counter(packets)).elements())
+    extra = sorted((Counter(packets) - Counter(sent) - Counter(_optional_packets(wl))).elements())
+    if missing or extra:
         raise Violation("wire-multiset", f"missing on the wire {missing}, unexpected on the wire {extra}; {ctx}", key=f"C12/{name}/multiset/{'missing' if missing else 'extra'}")
     last: dict[int, int] = {}
     for s, q, _ in packets:
@@ -494,31 +579,60 @@ def _finish(world: World, wl: _Workload, box: dict[str, Any], amain: Callable[[]
 
 
 # ===================================================================================================== FairLock plumbing
-class _TrackingFairLock(FairLock):
-    """the repo's FairLock (all logic inherited); only records which tasks are currently inside acquire()"""
+class _Tracking:
+    """mixin: records, in arrival order, which tasks are currently inside acquire(), and who took the lock last; the lock's own
+    logic is inherited unchanged"""
+
+    world: Any = None
+
+    def _track_init(self) -> None:
+        self.waiting: list[Any] = []
+        self.owner: Any = None
+
+    async def acquire(self) -> Any:
+        task = asyncio.current_task()
+        self.waiting.append(task)
+        try:
+            r = await super().acquire()  # type: ignore[misc]
+        except asyncio.CancelledError:
+            if self.world is not None and not self.locked() and len(self.waiting) > 1:  # type: ignore[attr-defined]
+                # the rare state: the lock has been released, the head waiter is notified but has not run, somebody leaves the queue
+                self.world.probe("waiter-cancelled-while-the-lock-is-free:%s" % ("head" if self.waiting[0] is task else "non-head"))
+            raise
+        finally:
+            self.waiting.remove(task)
+        self.owner = task
+        return r
+
+
+class _TrackingFairLock(_Tracking, FairLock):
+    """the repo's FairLock"""
 
     def __init__(self, backend: Any):
         super().__init__(backend)
-        self.waiting: set[Any] = set()
+        self._track_init()
 
-    async def acquire(self) -> None:
-        task = asyncio.current_task()
-        self.waiting.add(task)
-        try:
-            await super().acquire()
-        finally:
-            self.waiting.discard(task)
+
+class _TrackingAsyncioLock(_Tracking, asyncio.Lock):
+    """asyncio.Lock = what the stock asyncio backend returns from create_fair_lock()"""
+
+    def __init__(self) -> None:
+        super().__init__()
+        self._track_init()
 
 
 class _FairLockBackend(SimAsyncIOBackend):
-    """what a backend that keeps the ABC's default create_fair_lock() gives its clients and servers"""
+    """fair=True: what a backend that keeps the ABC's default create_fair_lock() gives its clients, servers and transports;
+    fair=False: the stock asyncio.Lock.  Either way the lock only additionally records who is queued on it."""
 
-    def __init__(self, net: SimNet, wl: "_Workload"):
+    def __init__(self, net: SimNet, wl: "_Workload", fair: bool = True):
         super().__init__(net)
         self._wl = wl
+        self._fair = fair
 
     def create_fair_lock(self) -> Any:
-        lock = _TrackingFairLock(self)
+        lock: Any = _TrackingFairLock(self) if self._fair else _TrackingAsyncioLock()
+        lock.world = self._wl.world
         self._wl.locks.append(lock)
         return lock
 
@@ -564,6 +678,7 @@ def _h_fairlock(world: World) -> None:
             swarm_selector(world, loop.sim_selector)  # type: ignore[attr-defined]
         endpoint: Any = AsyncStreamEndpoint(await backend.wrap_stream_socket(lib), wl.protocol, max_recv_size=4096)
         lock = _TrackingFairLock(backend)
+        lock.world = world
         wl.locks.append(lock)
 
         async def send_packet(packet: Any) -> None:
@@ -626,7 +741,8 @@ def _h_tls(world: World) -> None:
 
     from vsim.tls import TLSPeer, make_context
 
-    wl = _Workload(world, "tls", max_extra_senders=3, max_packets=3)
+    wl = _Workload(world, "tls", max_extra_senders=3, max_packets=3, cancels=True)
+    wl.cancelled_may_be_sent = True
     version = ("1.3", "1.2")[world.choose("tls.version", 2)]
     lib_server = bool(world.choose("tls.lib_server", 2))
     shape = "eager" if wl.baseline else ("eager", "wtr")[world.choose("tls.shape", 2)]
@@ -636,9 +752,14 @@ def _h_tls(world: World) -> None:
     use_iter = [[world.choose("tls.iter", 2) for _ in lst] for lst in wl.plan]
     if capacity < (1 << 20):
         world.fault("capacity_small")
-    world.notes.update(tls=version, lib_server=lib_server, shape=shape, tls_capacity=capacity, piecewise=piecewise)
+    # the transport send lock: the stock asyncio.Lock, or the repo's FairLock (a backend keeping the ABC's create_fair_lock())
+    fair = False if wl.baseline else bool(world.choose("tls.fairlock", 2))
+    # back-pressure: the peer application stops reading for a while right after the handshake, so that the sender that owns the
+    # transport send lock stays suspended mid-flush while the others queue up behind it (and may be cancelled there)
+    pause = 0 if wl.baseline else (0, 0, 3, 12, 40)[world.choose("tls.peer_pause", 5)]
+    world.notes.update(tls=version, lib_server=lib_server, shape=shape, tls_capacity=capacity, piecewise=piecewise, fairlock=fair, peer_pause=pause)
     net = SimNet(world)
-    backend = SimAsyncIOBackend(net)
+    backend = _FairLockBackend(net, wl, fair=fair)
     d = wl.delivery
     if d.frag == 1 or (d.frag in (2, 3) and d.size < 16):
         d.frag, d.size = max(d.frag, 2), 16  # handshake + records byte-by-byte only cost simulation time
@@ -667,6 +788,10 @@ def _h_tls(world: World) -> None:
             else:
                 await tls.send_all(serializer.serialize(packet))
 
+        if pause:
+            peer.paused = True
+            world.fault("peer_stops_reading")
+            world.after(pause * TICK, peer.resume)
         try:
             await wl.run_senders(send_packet)
             guard = 0
